@@ -131,7 +131,13 @@ void check_history(History const& h, Problem const& prob, OracleOpts const& opts
                        + b.dir[2] * opts.field_tesla[2])
                       / bmag;
         double rperp = pmom / (2.99792458 * bmag) * std::sqrt(std::max(0.0, 1 - cosb * cosb));
-        return opts.field_delta_chord > 0.1224 * rperp ? ":delta_chord-admits-substeps-over-1-rad" : "";
+        if (opts.field_delta_chord > 0.1224 * rperp)
+            return ":delta_chord-admits-substeps-over-1-rad";
+        // the chord search halves the trial step at most max_nsteps times
+        double hchord = std::sqrt(8 * rperp * opts.field_delta_chord) + opts.field_minimum_step;
+        if (b.step_length > hchord * std::ldexp(1.0, opts.field_max_nsteps - 2))
+            return ":chord-search-exhausts-max_nsteps";
+        return "";
     };
     std::uint32_t const boundary_action = action_id("geo-boundary");
     std::uint32_t const failure_action = action_id("physics-failure");
